@@ -203,6 +203,42 @@ pub mod uri {
 			}
 			_ => {}
 		}
+		// comparisons with byte ARRAYS (const-generic impls): the spelling as [u8; N], N <= 8
+		macro_rules! arr {
+			($($n:literal)*) => {
+				match ub.len() {
+					$($n => {
+						let a: [u8; $n] = ub.try_into().unwrap();
+						match kind {
+							Kind::Ri => {
+								let r = Ri::new(t).ok().unwrap();
+								let o = RiBuf::new(t.to_vec()).ok().unwrap();
+								v.push(("Uri==[u8;N]", *r == a));
+								v.push(("Uri==&[u8;N]", *r == &a));
+								v.push(("UriBuf==[u8;N]", o == a));
+								v.push(("UriBuf==&[u8;N]", o == &a));
+							}
+							Kind::RiRef => {
+								let r = RiRef::new(t).ok().unwrap();
+								let o = RiRefBuf::new(t.to_vec()).ok().unwrap();
+								v.push(("UriRef==[u8;N]", *r == a));
+								v.push(("UriRef==&[u8;N]", *r == &a));
+								v.push(("UriRefBuf==[u8;N]", o == a));
+								v.push(("UriRefBuf==&[u8;N]", o == &a));
+							}
+							Kind::Path => {
+								let r = Path::new(t).ok().unwrap();
+								v.push(("Path==[u8;N]", *r == a));
+								v.push(("Path==&[u8;N]", *r == &a));
+							}
+							_ => {}
+						}
+					})*
+					_ => {}
+				}
+			};
+		}
+		arr!(0 1 2 3 4 5 6 7 8);
 		v
 	}
 	/// Borrow views that only exist in the URI family: a URI seen as an IRI / IRI reference.
